@@ -211,3 +211,25 @@ def canon_fields(fn, specs, extra_roles=()):
                 if not i.get("self"):
                     rename(i["pat"], {actual: role[0]})
     return f, missing
+
+
+def arm_table(m, body_of=None):
+    """{pattern text: body text} of a match, with the bindings of every arm renamed to b1, b2, .. in order of
+    appearance (so that the names chosen for pattern bindings do not matter); spaces removed."""
+    from astlib import block_tail
+
+    tab = {}
+    for a in m["arms"]:
+        a2 = copy.deepcopy(a)
+        names = []
+        for n in walk(a2["pat"]):
+            if n["k"] == "PIdent" and n["name"][:1].islower() and n["name"] not in names:
+                names.append(n["name"])
+        mp = {nm: "b%d" % (i + 1) for i, nm in enumerate(names)}
+        rename(a2, mp)
+        b = a2["body"]
+        if b["k"] == "Block" and len(b["stmts"]) == 1 and block_tail(b) is not None:
+            b = block_tail(b)
+        key = render(a2["pat"]).replace(" ", "") + ((" if " + render(a2["guard"]).replace(" ", "")) if a2.get("guard") else "")
+        tab[key] = render(strip(b)).replace(" ", "")
+    return tab
